@@ -70,7 +70,7 @@ func verifC02b() { // decorator input and group membership as demand paths
 
 func verifC02c() { // groups
 	verifRunProfile(&vProfile{name: "C02c", clauses: vC02,
-		maxScopes: 1, nRegs: 2, maxParams: 1, maxResults: 1, pForms: 2, rForms: 1, names: 1, groups: true,
+		maxScopes: 1, nRegs: 2, maxParams: 1, maxResults: 1, pForms: 2, rForms: 1, names: 1, groups: true, flatten: true,
 		faults: 1, nInvokes: 2, invParams: 1, distinct: true, noMissing: true})
 }
 
@@ -113,10 +113,10 @@ func verifC07a() {
 		faults: 3, recoverOpt: 2, nInvokes: 2, invParams: 1, distinct: true, noMissing: true})
 }
 
-func verifC07b() { // a decorator that may fail
+func verifC07b() { // a decorator that may fail, by error or by panic
 	verifRunProfile(&vProfile{name: "C07b", clauses: vC07,
 		maxScopes: 1, nRegs: 2, maxParams: 1, maxResults: 1, pForms: 1, rForms: 1, names: 1, decorators: 1,
-		faults: 2, recoverOpt: 0, nInvokes: 2, invParams: 1, distinct: true, noMissing: true})
+		faults: 3, recoverOpt: 2, nInvokes: 2, invParams: 1, distinct: true, noMissing: true})
 }
 
 // ---- C08: scope visibility
@@ -237,3 +237,83 @@ func verifC02d() { // decorators with an extra dependency or a second key
 }
 
 func init() { verifEntries["verifC02d"] = verifC02d }
+
+// ---- profiles added after the first round of seeded changes ---------------------------------
+
+func verifC04c() { // exported constructors whose dependencies live in the providing scope
+	verifRunProfile(&vProfile{name: "C04c", clauses: vC04,
+		maxScopes: 2, nRegs: 2, maxParams: 1, maxResults: 1, pForms: 1, rForms: 1, names: 1, export: true,
+		faults: 1, nInvokes: 1, invParams: 1, distinct: true})
+}
+
+func verifC05sd() { // a chain of three scopes: cycles visible only from the leaf
+	verifRunProfile(&vProfile{name: "C05sd", clauses: vC05s,
+		maxScopes: 3, nRegs: 2, maxParams: 1, maxResults: 1, pForms: 1, rForms: 1, names: 1,
+		faults: 1, nInvokes: 1, invParams: 0, distinct: true})
+}
+
+func verifC03c() { // decorated value groups: their feeders are only needed by the decorator
+	verifRunProfile(&vProfile{name: "C03c", clauses: vC03,
+		maxScopes: 2, nRegs: 2, maxParams: 0, maxResults: 1, pForms: 2, rForms: 2, names: 1, groups: true, decorators: 1, decor2: true,
+		faults: 1, nInvokes: 1, invParams: 1})
+}
+
+func verifC12b() { // two decorators of one key at two levels, input-less decorators, two Invokes
+	verifRunProfile(&vProfile{name: "C12b", clauses: append([]string{"C01.arg"}, vC12...),
+		maxScopes: 2, nRegs: 3, maxParams: 0, maxResults: 1, pForms: 1, rForms: 1, names: 1, decorators: 2, decor2: true,
+		regKinds: []int{vCtor, vDecor, vDecor}, faults: 1, nInvokes: 2, invParams: 1, noMissing: true})
+}
+
+func init() {
+	for n, f := range map[string]func(){
+		"verifC04c": verifC04c, "verifC05sd": verifC05sd, "verifC03c": verifC03c, "verifC12b": verifC12b,
+	} {
+		verifEntries[n] = f
+	}
+}
+
+func verifC08b() { // a value cached through a child, then the child provides the key itself
+	verifRunProfile(&vProfile{name: "C08b", clauses: vC08,
+		maxScopes: 2, nRegs: 1, maxParams: 0, maxResults: 1, pForms: 1, rForms: 1, names: 1, export: true,
+		faults: 1, nInvokes: 3, invParams: 1, lateRegs: 1, lateAfter: 1})
+}
+
+func verifC09c() { // duplicates through Export from a child scope
+	verifRunProfile(&vProfile{name: "C09c", clauses: vC09,
+		maxScopes: 2, nRegs: 2, maxParams: 0, maxResults: 1, pForms: 1, rForms: 1, names: 2, export: true,
+		faults: 1, nInvokes: 1, invParams: 1})
+}
+
+func verifC10c() { // group members provided As interfaces
+	verifRunProfile(&vProfile{name: "C10c", clauses: vC10,
+		maxScopes: 1, nRegs: 2, maxParams: 0, maxResults: 1, pForms: 2, rForms: 1, names: 1, groups: true, as: true,
+		faults: 1, nInvokes: 2, invParams: 1})
+}
+
+func verifC11c() { // three fields: two soft groups around a hard dependency
+	verifRunProfile(&vProfile{name: "C11c", clauses: vC11,
+		maxScopes: 1, nRegs: 1, maxParams: 0, maxResults: 2, pForms: 2, rForms: 2, names: 1, groups: true, soft: true,
+		faults: 1, nInvokes: 1, invParams: 3, objOnly: true})
+}
+
+func verifC13b() { // a failed Invoke, a registration, the same Invoke again
+	verifRunProfile(&vProfile{name: "C13b", clauses: append([]string{"C04.ok", "C04.err"}, vC13...),
+		maxScopes: 1, nRegs: 1, maxParams: 1, maxResults: 1, pForms: 1, rForms: 1, names: 1,
+		faults: 1, nInvokes: 2, invParams: 1, lateRegs: 1, distinct: true})
+}
+
+func init() {
+	for n, f := range map[string]func(){
+		"verifC08b": verifC08b, "verifC09c": verifC09c, "verifC10c": verifC10c, "verifC11c": verifC11c, "verifC13b": verifC13b,
+	} {
+		verifEntries[n] = f
+	}
+}
+
+func verifC12c() { // decorated value groups and decorators with two keys / extra dependency / no input
+	verifRunProfile(&vProfile{name: "C12c", clauses: append([]string{"C01.arg"}, vC12...),
+		maxScopes: 2, nRegs: 2, maxParams: 0, maxResults: 1, pForms: 2, rForms: 2, names: 1, groups: true, decorators: 1, decor2: true,
+		faults: 1, nInvokes: 1, invParams: 1})
+}
+
+func init() { verifEntries["verifC12c"] = verifC12c }
